@@ -204,6 +204,48 @@ def static_checks(acc):
     acc.counters["static"] += 1
 
 
+def shape(msg):
+    """AVP codes in order, with the member codes of Grouped AVPs"""
+    out = []
+    for a in msg.avps:
+        members = getattr(a, "avps", None)
+        out.append((a.get_code(), tuple(m.get_code() for m in members) if members else None, len(a.dump())))
+    return out
+
+
+def instances_are_independent(acc, plan, cname):
+    """Two messages built from the same arguments are two messages: changing the first (list, Grouped members, header) must
+    leave the second - built afterwards - as if the first had never existed (no default or table shared between instances)."""
+    from bromelia.base import DiameterAVP
+    try:
+        first = plan.build()
+        want = shape(first)
+        hdr = (first.header.get_command_code(), first.header.get_application_id(), first.header.get_flags())
+        first.append(DiameterAVP(code=99991, data=b"scribble"))
+        if len(first.avps) > 2:
+            first.avps[1].data = first.avps[1].data if first.avps[1].data is None else first.avps[1].data + b""
+        passed = set()
+        for v in plan.kwargs.values():          # objects the caller handed in are the caller's: only what the class built itself is scribbled on
+            passed.add(id(v))
+            if isinstance(v, (list, tuple)):
+                passed.update(id(x) for x in v)
+        for a in first.avps:
+            if getattr(a, "avps", None) and id(a) not in passed and not any(id(m) in passed for m in a.avps):
+                a.append(DiameterAVP(code=99992, data=b"member"))
+                break
+        first.header.flags = bytes([first.header.get_flags() | 0x10])
+        second = plan.build()
+    except BaseException as ex:
+        acc.observe("instance-independence-not-checked:%s" % type(ex).__name__)
+        return
+    acc.counters["instance_pairs"] += 1
+    got = shape(second)
+    hdr2 = (second.header.get_command_code(), second.header.get_application_id(), second.header.get_flags())
+    if [x[:2] for x in got] != [x[:2] for x in want] or hdr2 != hdr:
+        acc.violation("second-instance-inherits-from-first:%s" % cname, "%s built twice from the same arguments: AVPs %s / header %s the first time, %s / %s after the first instance was changed" % (
+            cname, [x[:2] for x in want][:12], hdr, [x[:2] for x in got][:12], hdr2), {"plan": plan.describe()})
+
+
 def run_batch(b):
     acc = harness.Acc()
     g = Gen(b["seed"])
@@ -230,6 +272,8 @@ def run_batch(b):
             acc.sigs.add(harness.sig_hash("%s.%s/%s/x%d" % (lib, cname, ",".join(sorted(plan.kwargs)), extras)))
             if check_plan(acc, g, plan):
                 ok += 1
+            if i < 12:
+                instances_are_independent(acc, plan, "%s.%s" % (lib, cname))
             if i == 1:
                 acc.sample({"class": "%s.%s" % (lib, cname), "supplied": sorted(plan.kwargs)}, limit=3)
         acc.extra.setdefault("per_class_built", {})["%s.%s" % (lib, cname)] = ok
